@@ -16,13 +16,14 @@ DRIVER = [
     ("C20n", "TfPwaV.Gen.InterpNDF", "InterpNDF.handle"),
     ("C20p", "TfPwaV.Gen.PercentileF", "PercentileF.handle"),
     ("C20g", "TfPwaV.Gen.HistOpsF", "HistOpsF.handle"),
+    ("C20t", "TfPwaV.Gen.ToyF", "ToyF.handle"),
 ]
-LEAN_TARGETS = ["TfPwaV.Props.C20", "TfPwaV.Props.C20b", "TfPwaV.Props.C20c", "TfPwaV.Props.C20d", "TfPwaV.Props.C20e", "TfPwaV.Props.C20f", "TfPwaV.Props.C20g",
-                "TfPwaV.Gen.SamplerF", "TfPwaV.Gen.InterpF", "TfPwaV.Gen.InterpNDF", "TfPwaV.Gen.PercentileF", "TfPwaV.Gen.HistOpsF"]
-PROP_MODULES = ["TfPwaV.Props.C20", "TfPwaV.Props.C20b", "TfPwaV.Props.C20c", "TfPwaV.Props.C20d", "TfPwaV.Props.C20e", "TfPwaV.Props.C20f", "TfPwaV.Props.C20g"]
+LEAN_TARGETS = ["TfPwaV.Props.C20", "TfPwaV.Props.C20b", "TfPwaV.Props.C20c", "TfPwaV.Props.C20d", "TfPwaV.Props.C20e", "TfPwaV.Props.C20f", "TfPwaV.Props.C20g", "TfPwaV.Props.C20h",
+                "TfPwaV.Gen.SamplerF", "TfPwaV.Gen.ToyF", "TfPwaV.Gen.InterpF", "TfPwaV.Gen.InterpNDF", "TfPwaV.Gen.PercentileF", "TfPwaV.Gen.HistOpsF"]
+PROP_MODULES = ["TfPwaV.Props.C20", "TfPwaV.Props.C20b", "TfPwaV.Props.C20c", "TfPwaV.Props.C20d", "TfPwaV.Props.C20e", "TfPwaV.Props.C20f", "TfPwaV.Props.C20g", "TfPwaV.Props.C20h"]
 ALL_MODULES = ["TfPwaV.Model.Bins", "TfPwaV.Model.Hist", "TfPwaV.Proofs.Sampler", "TfPwaV.Proofs.Interp", "TfPwaV.Proofs.InterpDeriv",
                "TfPwaV.Proofs.Bins", "TfPwaV.Props.C20", "TfPwaV.Props.C20b", "TfPwaV.Props.C20c", "TfPwaV.Props.C20d", "TfPwaV.Proofs.InterpND", "TfPwaV.Proofs.InterpNDInt", "TfPwaV.Proofs.ScalarR",
-               "TfPwaV.Proofs.Percentile", "TfPwaV.Props.C20e", "TfPwaV.Props.C20f", "TfPwaV.Props.C20g"]
+               "TfPwaV.Proofs.Percentile", "TfPwaV.Props.C20e", "TfPwaV.Props.C20f", "TfPwaV.Props.C20g", "TfPwaV.Proofs.Toy", "TfPwaV.Props.C20h"]
 ASSUMPTIONS = [
     "sampler theorems are about the R-instance of templates/Sampler.lean.in; the Float instance of the same text is compared bit-for-bit with multi_sampling/single_sampling2/GenTest on recorded proposal batches and uniform streams (phsp, amp, importance_f and tf.random.uniform are inputs of the model)",
     "weights are non-negative (|amplitude|^2); phsp(n) returns exactly n events; the loop may not terminate (all weights zero): exact-count theorem is conditional on the loop exiting",
@@ -30,7 +31,9 @@ ASSUMPTIONS = [
     "populations_near_equal is about the R-instance of templates/Percentile.lean.in at the exact quantile q = k/n; the Float instance of the same text is compared bit-for-bit with np.percentile and with every cut point of single_split_bound. In double arithmetic (j/n*100)/100 can fall an ulp below k/n, so that numpy's floor index is one less than floor((N-1)k/n) with gamma ~ 1 (2.8% of all (N<=400, n<=20, k)); the returned value then differs from the exact quantile by rounding only. The theorem's tie parameter m counts values in a window [v, v + 1e-6) (real 10^-6; the search uses 1.000001e-6 + 8 ulp)",
     "acceptance-rejection counting theorems (C20f): uniforms on the grid j/K, every K; weights 0 <= w <= M; thinning bounds 0 < m <= M. That tf.random.uniform is uniform and independent is NOT proved (chi-square, thorough tier)",
     "templates/HistOps.lean.in models np.sum as a sequential sum and takes np.isinf(error) as a flag list; the Float instance is compared on dyadic data (contents multiples of 1/4, errors powers of two), where every summation order gives the same double; scale_to's two divisions are guarded by hypotheses (sum of contents != 0, mean bin width != 0)",
-    "generate_toy / generate_toy_p are run on a stub configuration (get_decay / get_amplitude / eval_amplitude) with gen= / gen_p= and the amplitude given by the recorded streams; applications.gen_data / gen_mc (file based, own rejection loop) are not modelled",
+    "toy drivers (C20h, templates/Toy.lean.in on top of templates/Sampler.lean.in): generate_toy / generate_toy2 / generate_toy_p are modelled from the choice of the proposal generator on (importance_f / config.max_amplitude / force / max_N plumbing, importance division, gen_random_charge and the four charge paths); the Float instance is compared bit-for-bit on a stub configuration (amplitude = recorded weight column; config.max_amplitude absent / None / tf constants 8, 0.125, 16; gen= and gen_p=; include_charge) and on a small real ConfigLoader model (A -> B C D, three resonances; pass-through recording of the real tf.random.uniform streams, amplitude values and single_sampling2 bounds; returned events identified with their proposals through the exact four-momentum). Inputs of the model, not verified: proposal batches, amplitude and importance values, uniform streams; phsp(n) returns n events; amplitudes >= 0, importance values > 0",
+    "generate_toy_o: request formula int(1.01 * n_total / (n_accept + 1) * (N - n_accept)) as Nat.floor (Float: toUInt64), N - n_accept as a natural-number subtraction (used only while N > n_accept), abs(min(max_N, test_N)) as min on naturals (max_N >= 0); tf.reduce_max of an empty batch is modelled as 0 (the empty batch accepts nothing either way). The model has the released and the patched (max(1, ...)) formula; the harness selects by running the zero-request history on the tree",
+    "applications.gen_data: Nbg = round(wbg * Nbg) (Python round) and the Poisson fluctuation are inputs (Poisson_fluc is not exercised); the amplitude column ampsq, the index stream list_rdm, the already scaled stream uni_rdm in [0, ampsq_max) and the background index stream are inputs; tf.concat of an empty list raising is modelled as `none`; np.random.shuffle is a permutation of the events (checked on the implementation with a recorded permutation, not modelled); load_dat_file / np.savetxt / prepare_data_from_decay / cal_angle_from_momentum are outside the model (the search compares the written file, the MC row blocks and the returned momenta exactly). gen_mc: row layout only (PhaseSpaceGenerator is C10). get_phsp_p_generator / build_phsp_chain / perfer_node / get_SDP_p_generator / generate_SDP(_p) / ChainGenerator wiring are NOT modelled (cal_phsp_max -> exactly one cal_max_weight call per leaf before the first proposal is checked on the real model only)",
     "LinearInterp theorems: strictly increasing nodes, node values >= 0, int_all > 0, u in [0,1) (u = 1 is covered when the last bin has positive mass); 'node values not all zero' does NOT imply int_all > 0 because of the |k| <= epsilon flattening (a bin whose left node is 0 and whose slope is below epsilon gets mass 0)",
     "adaptive-bin partition theorems assume monotone cut chains lb <= c1 <= ... <= rb (checked on every recorded run by the model's validLoop; np.percentile(...)+1e-6 can exceed the parent bin's right edge only when half of a bin's values lie within 1e-6 of it)",
     "'the sample follows the model density' is statistical: validated by chi-square tests at false-alarm probability <= 1e-9 (thorough tier), not proved",
@@ -951,12 +954,14 @@ def correspond(ctx, res):
     n5, _ = correspond_interp_nd(ctx, res) or (0, 0)
     n6, _ = correspond_percentile(ctx, res) or (0, 0)
     n7, _ = correspond_histops(ctx, res) or (0, 0)
-    n4 += n5 + n6 + n7
+    import c20_toy
+    n8, _ = c20_toy.correspond(ctx, res) or (0, 0)
+    n4 += n5 + n6 + n7 + n8
     res.coverage.update({
         "traces_validated_against_impl": n1 + n2 + n3 + n4,
         "evaluations": n1 + n2 + n3 + n4,
         "distinct_nontrivial": res.coverage.get("multi_sampling_runs_with_thinning", 0) + n2 + n3 + n4,
-        "rule": "seeded scenarios: multi_sampling runs (8 weight/bound regimes incl. bound growth with thinning, exact ties, supplied bounds, importance_f) replayed bit-for-bit; LinearInterp grids (plateaus, zero nodes, slopes around epsilon) coefficient/solve/integral/call bit-for-bit; BWGenerator to 1e-12; AdaptiveBound boxes and membership matrices exact (incl. points on edges); Hist1D.histogram counts/errors exact with integer weights; np.percentile and single_split_bound cut points bit-for-bit (random, tie-heavy, 1e-6-clustered samples and all calls inside nested AdaptiveBound runs); Hist1D.scale_to/chi2/ndf bit-for-bit on dyadic data; generate_toy / generate_toy_p wrappers replayed through the Sampler model. non-trivial = runs with at least one thinning + all other cases",
+        "rule": "seeded scenarios: multi_sampling runs (8 weight/bound regimes incl. bound growth with thinning, exact ties, supplied bounds, importance_f) replayed bit-for-bit; LinearInterp grids (plateaus, zero nodes, slopes around epsilon) coefficient/solve/integral/call bit-for-bit; BWGenerator to 1e-12; AdaptiveBound boxes and membership matrices exact (incl. points on edges); Hist1D.histogram counts/errors exact with integer weights; np.percentile and single_split_bound cut points bit-for-bit (random, tie-heavy, 1e-6-clustered samples and all calls inside nested AdaptiveBound runs); Hist1D.scale_to/chi2/ndf bit-for-bit on dyadic data; generate_toy / generate_toy_p wrappers replayed through the Sampler model; C20h: generate_toy/toy2/toy_p over all keyword paths (stub + real ConfigLoader model), generate_toy_o, gen_random_charge, gen_data on gen_mc files replayed through templates/Toy.lean.in. non-trivial = runs with at least one thinning + all other cases",
         "exhaustive": False,
     })
 
@@ -1514,7 +1519,15 @@ def check_statistical(p):
     return bad
 
 
-CHECKS = {"pops": check_pops, "histops": check_histops, "interp_nd_mass": check_interp_nd_mass, "multi": check_multi, "li": check_li, "bw": check_bw, "interp_nd": check_interp_nd, "bins": check_bins,
+def _toy_check(kind):
+    def run(param):
+        import c20_toy
+        return c20_toy.CHECKS[kind](param)
+    return run
+
+
+CHECKS = {"toy": _toy_check("toy"), "toy_o": _toy_check("toy_o"), "charge": _toy_check("charge"), "gen_data": _toy_check("gen_data"),
+          "toy_real": _toy_check("toy_real"), "pops": check_pops, "histops": check_histops, "interp_nd_mass": check_interp_nd_mass, "multi": check_multi, "li": check_li, "bw": check_bw, "interp_nd": check_interp_nd, "bins": check_bins,
           "hist": check_hist, "real": check_real_model, "stat": check_statistical}
 
 
@@ -1555,6 +1568,8 @@ def search(ctx, res):
     for scn in wrapper_scenarios(ctx.seed * 7919 + 23, 16 * f):
         _run(res, "multi", scn, cnt)
     _run(res, "real", {"N": 57 if ctx.quick else 400, "maxN": 40 if ctx.quick else 150, "seed": ctx.seed + 1}, cnt)
+    import c20_toy
+    cnt.update(c20_toy.search(ctx, res, _run, f))
     if not ctx.quick:
         _run(res, "stat", {"n": 2000000, "seed": ctx.seed + 5}, cnt)
     res.coverage["search_cases"] = cnt
@@ -1584,7 +1599,7 @@ def replay(ctx, payload):
 
 
 MANIFEST = {
-    "text": "Lean theorems (all inputs / all histories): every event retained by the multi_sampling model has weight <= the bound it was accepted with and (starting without a supplied bound) <= the running max_weight, in every reachable state (induction over batches); the GenTest counter equals the number of retained events, every request is >= 1, and with force the result has exactly N events whenever the loop exits; LinearInterp: for strictly increasing nodes, node values >= 0, int_all > 0 and u in [0,1), integral(solve u) = u*int_all and x0 <= solve u <= x_last (the code's root of the in-bin quadratic is the one with k t + b >= 0; flat bins separately), integral(x0) = 0; BWGenerator: integral(solve u) - integral(m_min) = u*int_all and m_min <= solve u <= m_max; adaptive bins: for monotone cut chains every value of [c0,ck) lies in exactly one half-open bin and nested splitting (multi_split_bound / loop_split_bound) preserves 'exactly one box' (all depths, induction); weighted histogram: sum of bins = sum of in-range weights, sum of squared errors = sum of in-range squared weights (list induction), + - x scalar act linearly on contents and in quadrature on errors. NEW (C20e, all samples incl. ties, all n >= 1): np.percentile is MODELLED (templates/Percentile.lean.in) and its order-statistic contract proved: #{x < p} <= floor((N-1)k/n)+1 <= #{x <= p}, numpy's two _lerp branches are the same linear interpolation, the model's sort is a sort; the k-th cut of single_split_bound (percentile + 1e-6) has between floor((N-1)k/n)+1 and floor((N-1)k/n)+1+m values below it, and populations_near_equal: every bin of single_split_bound(data, n, (lb, rb)) holds between floor((N-1)/n)-m and floor((N-1)/n)+1+m values, m = the largest number of values in a window [v, v+1e-6) (m = 1 for 1e-6-separated values: floor or ceil of N/n up to +-1; with ties the deviation is bounded by the multiplicity), without assuming a monotone cut chain; the hypotheses are inherited by the masked sub-sample of every bin (sub_sample_inherits), two-level statement nested_populations, and nested_multiplies_out: along every root-to-leaf path of a nested splitting the leaf population lies between the multiplied-out bounds (induction over the depth). NEW (C20f): accept_interval (a proposal of weight w with bound M is accepted exactly for u < w/M), accept_count_grid (on the grid u = j/K exactly ceil(K w/M) of K grid points accept, every K; fraction within 1/K of w/M), thinning_ratio / thinning_count_grid (retained exactly for u < m/M, ceil(K m/M) grid points), step_growth (multi_sampling thins with book-keeping bound / new acceptance bound and books M*1.05), composed_acceptance (through every linked bound history the interval lengths multiply to w * prod(c) / M_final), composed_acceptance_proportional, composed_acceptance_history (only the final bound and the product of book-keeping factors matter, not the order in which the bound grew). NEW (C20g): hist_scale_to_conserves (after scale_to, sum(count) x mean bin width equals that of the target; equal binning: equal totals), scale_to = multiplication of contents and errors by one factor, get_bin_weight = mean bin width (telescoping), chi2 >= 0, chi2 invariant under scale_to / * c (c != 0), ndf counts the finite-error bins.",
-    "note": "Models: templates/Sampler.lean.in and templates/Interp.lean.in (one text, Float instance executed bit-for-bit against multi_sampling/single_sampling2/GenTest, LinearInterp, BWGenerator, Hist1D arithmetic on every run; R instance carries the theorems), Model/Bins.lean and Model/Hist.lean (polymorphic, executed at Rat on the exact rational value of every double against AdaptiveBound and Hist1D.histogram). Inputs of the models, not verified: proposal batches, weights, uniform streams, np.percentile cut points, np.histogram edges, np.digitize (modelled as linear scan). templates/InterpND.lean.in models InterpND/InterpNDHist after the fix commits (table with cell volumes, build_coeffs numbering, decode arithmetic, generate from supplied uniforms) and is executed bit-for-bit against them; theorems interp_nd_in_range, interp_nd_selected_entry, interp_nd_bin_mass (iterated integral of the multilinear interpolant, all dimensions), build_coeffs_numbering, within_cell_inverse_cdf, within_cell_mixture. templates/Percentile.lean.in (np.percentile 'linear' + single_split_bound cut points; Float instance bit-for-bit against np.percentile on random, tie-heavy and 1e-6-clustered samples and against every single_split_bound call inside nested AdaptiveBound runs) and templates/HistOps.lean.in (scale_to, chi2, ndf, get_count, get_bin_weight; Float instance bit-for-bit on dyadic data) are new; the wrappers ConfigLoader.generate_toy / generate_toy_p are replayed bit-for-bit through the Sampler model on recorded streams (stub configuration; they must start multi_sampling without a bound). The search checks populations_near_equal, the cut-count contract and the partition on every single_split_bound call of real nested runs (ties included), scale_to / chi2 / ndf against their definitions, and the multi_sampling statements through the wrappers. Validated on the implementation only: generate_toy/generate_toy_p on one real three-body model (exact count, on-shell, momentum conservation, weight <= bound), the uniformity/independence of tf.random.uniform behind 'the sample follows the density' (chi-square at p<=1e-9, thorough tier only; its algebraic core is C20f), applications.gen_data / gen_mc (not modelled). Known finding on the unchanged tree (listed, patch fixes/C20-fix_linear_interp_sqrt_clip.diff): LinearInterp.solve returns NaN when u*int_all is within rounding distance of the cumulative value at a zero-density node of a sloped bin (sqrt of a rounded-negative radicand); the model mirrors the unclipped code, the correspondence skips exactly the points where the model is NaN, so the check passes on both the unfixed and the fixed tree. Two more listed findings (patch fixes/C20-fix_interp_nd_cell_volume.diff): the cumulative tables of InterpND and InterpNDHist omit the cell volume, so on NON-uniform grids generate() does not follow the object's own density (exact on uniform grids, the only use in the repository); the search compares the table with the integral of the density on uniform and non-uniform grids and keys the non-uniform failures separately. Fourth listed finding (patch fixes/C20-fix_interp_nd_corner_order.diff): in >= 2 dimensions InterpND numbers corner weights and corner sampling shapes with opposite bit order, so within a cell the sample follows the interpolant with transposed corner values; found by the thorough chi-square test, reproduced deterministically by the search (selected corner vs corner the point is drawn towards).",
+    "text": "Lean theorems (all inputs / all histories): every event retained by the multi_sampling model has weight <= the bound it was accepted with and (starting without a supplied bound) <= the running max_weight, in every reachable state (induction over batches); the GenTest counter equals the number of retained events, every request is >= 1, and with force the result has exactly N events whenever the loop exits; LinearInterp: for strictly increasing nodes, node values >= 0, int_all > 0 and u in [0,1), integral(solve u) = u*int_all and x0 <= solve u <= x_last (the code's root of the in-bin quadratic is the one with k t + b >= 0; flat bins separately), integral(x0) = 0; BWGenerator: integral(solve u) - integral(m_min) = u*int_all and m_min <= solve u <= m_max; adaptive bins: for monotone cut chains every value of [c0,ck) lies in exactly one half-open bin and nested splitting (multi_split_bound / loop_split_bound) preserves 'exactly one box' (all depths, induction); weighted histogram: sum of bins = sum of in-range weights, sum of squared errors = sum of in-range squared weights (list induction), + - x scalar act linearly on contents and in quadrature on errors. NEW (C20e, all samples incl. ties, all n >= 1): np.percentile is MODELLED (templates/Percentile.lean.in) and its order-statistic contract proved: #{x < p} <= floor((N-1)k/n)+1 <= #{x <= p}, numpy's two _lerp branches are the same linear interpolation, the model's sort is a sort; the k-th cut of single_split_bound (percentile + 1e-6) has between floor((N-1)k/n)+1 and floor((N-1)k/n)+1+m values below it, and populations_near_equal: every bin of single_split_bound(data, n, (lb, rb)) holds between floor((N-1)/n)-m and floor((N-1)/n)+1+m values, m = the largest number of values in a window [v, v+1e-6) (m = 1 for 1e-6-separated values: floor or ceil of N/n up to +-1; with ties the deviation is bounded by the multiplicity), without assuming a monotone cut chain; the hypotheses are inherited by the masked sub-sample of every bin (sub_sample_inherits), two-level statement nested_populations, and nested_multiplies_out: along every root-to-leaf path of a nested splitting the leaf population lies between the multiplied-out bounds (induction over the depth). NEW (C20f): accept_interval (a proposal of weight w with bound M is accepted exactly for u < w/M), accept_count_grid (on the grid u = j/K exactly ceil(K w/M) of K grid points accept, every K; fraction within 1/K of w/M), thinning_ratio / thinning_count_grid (retained exactly for u < m/M, ceil(K m/M) grid points), step_growth (multi_sampling thins with book-keeping bound / new acceptance bound and books M*1.05), composed_acceptance (through every linked bound history the interval lengths multiply to w * prod(c) / M_final), composed_acceptance_proportional, composed_acceptance_history (only the final bound and the product of book-keeping factors matter, not the order in which the bound grew). NEW (C20g): hist_scale_to_conserves (after scale_to, sum(count) x mean bin width equals that of the target; equal binning: equal totals), scale_to = multiplication of contents and errors by one factor, get_bin_weight = mean bin width (telescoping), chi2 >= 0, chi2 invariant under scale_to / * c (c != 0), ndf counts the finite-error bins. NEW (C20h, the toy DRIVERS; every keyword path = importance_f given or not, config.max_amplitude absent / None / any number, force, every max_N, every stream, every number of loop iterations): toy_exact_count (generate_toy, generate_toy2, generate_toy_p with force return exactly N events whenever the loop exits; without force at least N and the same sampler state), toy_accepted_le_bound (every returned event has importance-divided weight <= the bound in force when it was accepted, also when config.max_amplitude holds a bound that is too small, across all bound updates and restarts), toy_bound_le_final (on the paths that start without a bound also bound <= final status bound), toy_passed_bound and toy_config_bound_unchanged (what the wrappers do with bounds: pass config.max_amplitude only without importance_f, and never store the bound that was found), toy_restart_discards (growth branch of multi_sampling: EVERY earlier event is re-judged with a fresh uniform, survives exactly when rnd*M_new/M_old < 1, order kept, counter reset, bound M_new*1.05) with toy_no_restart_keeps, toy_supplied_bound_first_batch / toy_supplied_bound_too_small_witness (the first batch under a supplied bound never raises the bookkeeping value: the status can report a bound below a retained weight), charge_assignment (gen_random_charge: one charge per proposal, each +1 or -1, +1 exactly for u > 0.5, all +1 without random), charge_paths (which of generate_toy(gen_p) / generate_toy() / generate_toy_p draw and store charges, by include_charge), charge_stays_attached and mask_columns (data_mask keeps every column with its event: the charge column of the accepted batch is the charge of the accepted proposal indices), generate_toy_o: toy_o_exact_count, toy_o_accepted_le_bound (bound 1.1*max of the own batch), toy_o_no_restart, and the DEFECT toy_o_never_exits (all histories: once the request is 0 the loop never exits) with the kernel-checked history toy_o_never_exits_witness (N=2, max_N=1, first proposal accepted) and toy_o_zero_request_witness, toy_o_request_positive_of_rejection (the released formula is >= 1 once a proposal was rejected), toy_o_requests_positive_fixed (patched formula: every request in every reachable state >= 1); applications.gen_data: gen_data_weight_bound (every kept MC index is a valid row with 0 < ampsq <= ampsq_max, for every non-negative uniform stream), gen_data_count (whenever it returns: exactly Ndata events = Ndata-Nbg signal + Nbg background, Nbg < Ndata), gen_data_raises_without_signal, gen_data_layout (rows[p::Npar] of the event-major file is particle p of every event, every Npar, every event list) and rows_count (gen_mc / gen_data write Npar rows per event).",
+    "note": "Models: templates/Sampler.lean.in and templates/Interp.lean.in (one text, Float instance executed bit-for-bit against multi_sampling/single_sampling2/GenTest, LinearInterp, BWGenerator, Hist1D arithmetic on every run; R instance carries the theorems), Model/Bins.lean and Model/Hist.lean (polymorphic, executed at Rat on the exact rational value of every double against AdaptiveBound and Hist1D.histogram). Inputs of the models, not verified: proposal batches, weights, uniform streams, np.percentile cut points, np.histogram edges, np.digitize (modelled as linear scan). templates/InterpND.lean.in models InterpND/InterpNDHist after the fix commits (table with cell volumes, build_coeffs numbering, decode arithmetic, generate from supplied uniforms) and is executed bit-for-bit against them; theorems interp_nd_in_range, interp_nd_selected_entry, interp_nd_bin_mass (iterated integral of the multilinear interpolant, all dimensions), build_coeffs_numbering, within_cell_inverse_cdf, within_cell_mixture. templates/Percentile.lean.in (np.percentile 'linear' + single_split_bound cut points; Float instance bit-for-bit against np.percentile on random, tie-heavy and 1e-6-clustered samples and against every single_split_bound call inside nested AdaptiveBound runs) and templates/HistOps.lean.in (scale_to, chi2, ndf, get_count, get_bin_weight; Float instance bit-for-bit on dyadic data) are new; the wrappers ConfigLoader.generate_toy / generate_toy_p are replayed bit-for-bit through the Sampler model on recorded streams (stub configuration; they must start multi_sampling without a bound). The search checks populations_near_equal, the cut-count contract and the partition on every single_split_bound call of real nested runs (ties included), scale_to / chi2 / ndf against their definitions, and the multi_sampling statements through the wrappers. C20h: templates/Toy.lean.in (imports the Sampler template) models the drivers line by line; its Float instance is executed on every run against generate_toy / generate_toy2 / generate_toy_p (stub configuration over all keyword paths, and a real three-body ConfigLoader model with pass-through recording of the real random streams: requests, bounds, counters, efficiency, retained (batch, index) list, passed bound, config.max_amplitude afterwards — exact), generate_toy_o + single_sampling (requests and returned events; stalled histories must stall identically), gen_random_charge (incl. u = 0.5 and its float32 neighbours), the charge handed to cal_angle on each path, and applications.gen_data on gen_mc files (stub amplitude column and the real amplitude: number of passes, bound of the uniform stream, the (signal|background, row) list of the output before the recorded shuffle, raise for Ndata <= Nbg) plus the row stride. The search checks the same statements with model-independent oracles (count, weight <= bound, accept rule, re-judging trigger and retained set, start bound, charges per event, gen_data accept rule / counts / file layout / returned momenta = file rows, cal_phsp_max -> cal_max_weight once before the first batch). Listed finding generate_toy_o:zero-request (patch fixes/C20-fix_generate_toy_o_zero_request.diff): generate_toy_o never returns once its request size is 0 (all proposals so far accepted, one event missing, n < 100; needs max_N < N); reported by the search with a stable key, proved in Lean for the released formula, and the check passes on the patched tree as well (the model switches to the patched formula). Validated on the implementation only: on-shell / momentum conservation of the real-model toys, np.random.shuffle in gen_data being an event permutation, Poisson_fluc, the phase-space generator construction (get_phsp_p_generator, build_phsp_chain, perfer_node, SDP generators: not modelled), the uniformity/independence of tf.random.uniform behind 'the sample follows the density' (chi-square at p<=1e-9, thorough tier only; its algebraic core is C20f). Known finding on the unchanged tree (listed, patch fixes/C20-fix_linear_interp_sqrt_clip.diff): LinearInterp.solve returns NaN when u*int_all is within rounding distance of the cumulative value at a zero-density node of a sloped bin (sqrt of a rounded-negative radicand); the model mirrors the unclipped code, the correspondence skips exactly the points where the model is NaN, so the check passes on both the unfixed and the fixed tree. Two more listed findings (patch fixes/C20-fix_interp_nd_cell_volume.diff): the cumulative tables of InterpND and InterpNDHist omit the cell volume, so on NON-uniform grids generate() does not follow the object's own density (exact on uniform grids, the only use in the repository); the search compares the table with the integral of the density on uniform and non-uniform grids and keys the non-uniform failures separately. Fourth listed finding (patch fixes/C20-fix_interp_nd_corner_order.diff): in >= 2 dimensions InterpND numbers corner weights and corner sampling shapes with opposite bit order, so within a cell the sample follows the interpolant with transposed corner values; found by the thorough chi-square test, reproduced deterministically by the search (selected corner vs corner the point is drawn towards).",
     "technique": "Lean 4 proof (induction over batches / cut lists / event lists / sorted samples / split depth, exact counting on uniform grids, real algebra of the in-bin quadratic, tan/arctan) + bit-exact differential correspondence with recorded random streams + model-independent oracle search",
 }
